@@ -4,7 +4,8 @@ import glob
 import os
 import re
 
-BUILTIN = {"Option": ["None", "Some"], "Result": ["Ok", "Err"], "Ordering": ["Less", "Equal", "Greater"]}
+BUILTIN = {"Option": ["None", "Some"], "Result": ["Ok", "Err"], "Ordering": ["Less", "Equal", "Greater"],
+           "ControlFlow": ["Continue", "Break"]}
 
 
 def strip_comments(src):
@@ -53,3 +54,13 @@ def load_enums(crate_src_dir):
             else:
                 table[k] = v
     return table
+
+
+def load_type_names(crate_src_dir):
+    """names of the structs, enums and traits the crate defines (used to tell harper impls from std ones)"""
+    names = set()
+    for path in glob.glob(os.path.join(crate_src_dir, "**", "*.rs"), recursive=True):
+        src = strip_comments(open(path).read())
+        for m in re.finditer(r"\b(?:struct|enum|trait)\s+(\w+)", src):
+            names.add(m.group(1))
+    return names
